@@ -948,12 +948,18 @@ DIVISORS_REVIEWED = {
 }
 
 
+DIVISORS_GUARDED = {
+    # divisions whose divisor is tested by a conjunct to its left on today's tree: losing that test is a violation; a division that is in neither table is new code the rule cannot judge (analysis-broken: review it)
+    ('decl.c', 'declarator', 'base.type->size'), ('init.c', 'designator', 't->base->size'), ('util.c', 'reallocarray', 'n'),
+}
+
+
 def rule_division_guards(chk, prog, tier):
     r = chk.rule('C19.u', 'no host division or remainder in the compiler can have a zero divisor: the divisor is a non-zero constant, is tested for being non-zero by a conjunct to its left in the same condition, '
                  'or is one of the reviewed divisors that cannot be zero by construction; an arithmetic trap (SIGFPE) is not one of the ways the compiler may end', floor=12)
     from props.c10 import expr_text
     nconst = 0; n = 0
-    seen_reviewed = set()
+    seen_reviewed = set(); unknown = []
     for fn in prog.all_funcs():
         # divisions guarded inside a conjunction: X && ... (a / X)
         guarded = set()
@@ -991,9 +997,13 @@ def rule_division_guards(chk, prog, tier):
                 r.passed(key, where); continue
             why = DIVISORS_REVIEWED.get((fn['_file'], fn['name'], text))
             if why: seen_reviewed.add((fn['_file'], fn['name'], text))
-            r.instance(bool(why), key, where, '%s() divides by `%s`, which no conjunct to its left tests and which is not a reviewed divisor: a zero value traps in the compiler' % (fn['name'], text))
+            if not why and (fn['_file'], fn['name'], text) not in DIVISORS_GUARDED:
+                unknown.append('%s: %s() divides by `%s`' % (where, fn['name'], text)); continue
+            r.instance(bool(why), key, where, '%s() divides by `%s`; the test of the divisor that stood to its left in the same condition is gone: a zero value traps in the compiler' % (fn['name'], text))
     if n < 10 or nconst < 10:
         raise AnalysisBroken('only %d variable and %d constant divisors found' % (n, nconst))
+    if unknown:
+        raise AnalysisBroken('division(s) the rule has no verdict for - neither guarded in place nor in the reviewed tables: %s' % '; '.join(unknown))
     r.samples.append('%d divisions by constants, %d by expressions (%d reviewed divisors in use)' % (nconst, n, len(seen_reviewed)))
     r.exhaustive = True
 
